@@ -351,6 +351,7 @@ type kase struct {
 	Group  int    `json:"group,omitempty"` // 0 = single, else size
 	Pos    int    `json:"pos,omitempty"`   // position of the touching member
 	Height int64  `json:"height,omitempty"`
+	Same   bool   `json:"same_sender,omitempty"` // the other members of the group are signed by the touching member's key
 }
 
 type verdict struct{ fp, what string }
@@ -390,6 +391,13 @@ func assemble(k kase, black bool) (pool *types.Transaction, flat []*types.Transa
 		} else {
 			txs[i] = coinsTransfer(okR.b58, 10)
 			signers[i] = func(t *types.Transaction) { t.Sign(types.SECP256K1, gen.priv) }
+		}
+	}
+	if k.Same {
+		// every member comes from the touching member's sender (signed after grouping, like that member)
+		pos := signers[k.Pos]
+		for i := range signers {
+			signers[i] = pos
 		}
 	}
 	g, err := types.CreateTxGroup(txs, cfg.GetMinTxFeeRate())
@@ -436,6 +444,9 @@ func evalCase(k kase) *verdict {
 	gname := "single"
 	if k.Group > 0 {
 		gname = fmt.Sprintf("group%d@%d", k.Group, k.Pos)
+		if k.Same {
+			gname += "-one-sender"
+		}
 	}
 	switch k.Oracle {
 	case "exec":
@@ -688,14 +699,14 @@ func main() {
 		}
 	}
 	all := shapes()
-	groups := [][2]int{{0, 0}, {2, 0}, {2, 1}, {3, 0}, {3, 1}, {3, 2}}
+	groups := [][3]int{{0, 0, 0}, {2, 0, 0}, {2, 1, 0}, {3, 0, 0}, {3, 1, 0}, {3, 2, 0}, {2, 1, 1}, {3, 2, 1}} // size, position, same sender
 	for _, sh := range all {
 		for _, g := range groups {
 			for _, h := range []int64{H - 1, H, H + 1} {
 				if sh.Exec {
-					run(kase{Oracle: "exec", Shape: sh.Name, Group: g[0], Pos: g[1], Height: h})
+					run(kase{Oracle: "exec", Shape: sh.Name, Group: g[0], Pos: g[1], Height: h, Same: g[2] == 1})
 				}
-				run(kase{Oracle: "pack", Shape: sh.Name, Group: g[0], Pos: g[1], Height: h})
+				run(kase{Oracle: "pack", Shape: sh.Name, Group: g[0], Pos: g[1], Height: h, Same: g[2] == 1})
 			}
 		}
 	}
@@ -713,7 +724,7 @@ func main() {
 		}
 		for _, sh := range all {
 			for _, g := range groups {
-				run(kase{Oracle: "pool", Shape: sh.Name, Group: g[0], Pos: g[1]})
+				run(kase{Oracle: "pool", Shape: sh.Name, Group: g[0], Pos: g[1], Same: g[2] == 1})
 			}
 		}
 		if node.GetLastBlock().Height != tip {
